@@ -96,6 +96,18 @@ CHECKS["C18"] = dict(
          "pools and per-operation counter correspondence.",
     note="'maxima are true upper bounds' is covered through C03 (oversize requests rejected) and the correspondence of the oversize stream.",
     technique="Lean 4 proof over generated formulas + grid enumeration on the real code")
+CHECKS["C16"] = dict(
+    text="Lean theorems over the L1 models (proxies and chunk ring as addresses): ordered list - releasing any node that is on the list "
+         "(any position, any cursor state) with double-free checking on is never accepted: handler or unreachable path, no state produced; "
+         "valid releases are inserted in address order in every configuration (no false report). Small list - the chunk search terminates "
+         "for every state and pointer (repaired loop), only answers with a chunk that contains the pointer, and deallocate reports every "
+         "pointer that is outside all node areas or not on a node boundary (pointer check) or already free (double-free check), producing no "
+         "state; an accepted release was a valid one. memory_stack::unwind to any marker above the top is reported with the stack unchanged, "
+         "markers at or below the top in the current block never are; static/virtual/fixed block sources report exactly the non-LIFO returns. "
+         "Tied by child-process probes on the real allocators after seeded valid histories (outcome class vs model) in rwdi/dbg/dbgna.",
+    note="partial: completeness of the small list's search for valid pointers is at correspondence level. Two genuine defects found and "
+         "repaired (cursor overwritten before the report; non-terminating search for a foreign pointer on a one-chunk list).",
+    technique="Lean 4 proof (search correctness/termination, case analysis of the checks) + child-process correspondence")
 NOT_YET = {}
 
 def main():
